@@ -1138,6 +1138,7 @@ class HttpPayloadParser:
 
                 # toss the CRLF at the end of the chunk
                 if self._chunk == ChunkState.PARSE_CHUNKED_CHUNK_EOF:
+                    unparsed = chunk
                     if self._lax and chunk.startswith(b"\r"):
                         chunk = chunk[1:]
                     if chunk[: len(SEP)] == SEP:
@@ -1150,7 +1151,9 @@ class HttpPayloadParser:
                         set_exception(self.payload, exc)
                         raise exc
                     else:
-                        self._chunk_tail = chunk
+                        # Keep the CR skipped above: dropping it here would
+                        # accept any number of CRs when they arrive one by one.
+                        self._chunk_tail = unparsed
                         return PayloadState.PAYLOAD_NEEDS_INPUT, b""
 
                 if self._chunk == ChunkState.PARSE_TRAILERS:
